@@ -49,7 +49,7 @@ Definition check_mcase (c : mcase) : list nat :=
   let g := {| g_params := ["T"]; g_props := [] |} in
   let model := match m with
                | MMethodParam => method_param_accepts fixture_sub (Some (DGen "T")) [("T", A)] v
-               | MCtorPromoted => ctor_promoted_accepts (Some (DGen "T")) [("T", A)] v
+               | MCtorPromoted => ctor_promoted_accepts fixture_sub (Some (DGen "T")) [("T", A)] v
                end in
   let spec := match member_type g [A] (Some (DGen "T")) with
               | Some t => of_type fixture_sub v t | None => true end in
